@@ -103,6 +103,10 @@ def hook(site, ident):
             continue
         if w == 'parent' and r.simpid != 0:
             continue
+        # order-dependent behaviour: only once another test has run in this process
+        aft = e.get('after')
+        if aft is not None and not r.counters.get(('test.run', aft)):
+            continue
         _act(r, i, e, occ)
 
 
